@@ -67,7 +67,7 @@ func c06OpArgs() []c06Arg {
 	return []c06Arg{{"Eq", stackage.Eq}, {"Ne", stackage.Ne}, {"Ge", stackage.Ge}, {"nil", nil}, {`UserOp{"~=","ctx"}`, UserOp{"~=", "ctx"}},
 		{`UserOp{"","ctx"}`, UserOp{"", "ctx"}}, {`UserOp{"x",""}`, UserOp{"x", ""}}, {"ComparisonOperator(0)", stackage.ComparisonOperator(0)}, {"ComparisonOperator(9)", stackage.ComparisonOperator(9)},
 		{"(*ComparisonOperator)(nil)", (*stackage.ComparisonOperator)(nil)}, {"EnumOp(0)", EnumOp(0)}, {"EnumOp(1)", EnumOp(1)}, {"UnitOp{}", UnitOp{}},
-		{"EnumOp(42)", EnumOp(42)}, {"IntOp(0)", IntOp(0)}, {"IntOp(42)", IntOp(42)}, {"IntOp(-7)", IntOp(-7)}}
+		{"EnumOp(42)", EnumOp(42)}, {"&ComparisonOperator(Le)", c06OpPtr(5)}, {"&ComparisonOperator(9)", c06OpPtr(9)}, {"&ComparisonOperator(0)", c06OpPtr(0)}, {"IntOp(0)", IntOp(0)}, {"IntOp(42)", IntOp(42)}, {"IntOp(-7)", IntOp(-7)}}
 }
 
 func c06ExArgs() []c06Arg {
@@ -77,6 +77,11 @@ func c06ExArgs() []c06Arg {
 		{"Condition", stackage.Cond("ik", stackage.Lt, 5)}, {"Name(n)", Name("n")}, {"empty Stack", stackage.Not()},
 		{"(*Name)(nil)", (*Name)(nil)}, {"25 Conditions nested in one another", c06DeepCond(25)},
 		{"Stack its own validity policy rejects", stackage.And().Push("x").SetValidityPolicy(func(...any) error { return errPolicyRejects })}, {"[]string{a}", []string{"a"}}, {"[]string{b,c}", []string{"b", "c"}}, {"map", map[string]int{"k": 1}}, {"struct{[]int}", struct{ L []int }{[]int{1}}}}
+}
+
+func c06OpPtr(code int) *stackage.ComparisonOperator {
+	op := stackage.ComparisonOperator(code)
+	return &op
 }
 
 func isStackVal(v any) bool {
